@@ -14,7 +14,7 @@ contract("uxarray.grid.coordinates._lonlat_rad_to_xyz", props=["C04", "C16", "C0
          ensures=[_UNIT,
                   "eqr(result[0], cos(lon) * cos(lat)) and eqr(result[1], sin(lon) * cos(lat)) and eqr(result[2], sin(lat))"])
 
-contract("uxarray.grid.coordinates._normalize_xyz", props=["C04"],
+contract("uxarray.grid.coordinates._normalize_xyz", props=["C04"], options={"split": ["x != 0", "y != 0"]},
          params={"x": "real", "y": "real", "z": "real"},
          requires=["x != 0 or y != 0 or z != 0"],
          returns="tuple(real, real, real)", replay=_RP,
@@ -24,7 +24,7 @@ contract("uxarray.grid.coordinates._normalize_xyz", props=["C04"],
                   "and eqr(result[2] * sqrt(x*x + y*y + z*z), z)",
                   "sqrt(x*x + y*y + z*z) > 0"])
 
-contract("uxarray.grid.coordinates._normalize_xyz_scalar", props=["C04"],
+contract("uxarray.grid.coordinates._normalize_xyz_scalar", props=["C04"], options={"split": ["x != 0", "y != 0"]},
          params={"x": "real", "y": "real", "z": "real"},
          requires=["x != 0 or y != 0 or z != 0"],
          returns="tuple(real, real, real)", replay=_RP,
